@@ -56,6 +56,31 @@ def run(report, p):
                 recv_ok = any(any(s[0] == "param" and s[2] in date_params for s in subterms(o)) or any(is_call(s, "datetime.now") and (s[2] or s[3]) for s in subterms(o)) for o in pr.origins(x, f)) if not isinstance(x, ast.Call) else True
                 r1.check(aware, f, n, "isoformat() on a naive datetime: the written date carries no UTC offset", construct="isoformat without offset")
 
+    # ------------------------------------------------------------------ R16.5
+    r5 = report.rule(
+        "R16.5",
+        "no date loses or swaps its offset on the way: `.replace(tzinfo=…)` is applied to a datetime only directly after `.astimezone(...)` (same instant, then relabelled); "
+        "dropping the tzinfo of a date parsed from a manifest re-labels its wall-clock time as local time when it is written again (flatten in another zone)",
+        1,
+    )
+    n_dates = 0
+    for fq, f in p.funcs.items():
+        if f.module.name in unshipped:
+            continue
+        for n in walk_no_nested(f.node):
+            if isinstance(n, ast.Call) and isinstance(n.func, ast.Attribute) and n.func.attr == "replace" and any(k.arg == "tzinfo" for k in n.keywords):
+                n_dates += 1
+                r5.instance(f, n, norm(n)[:80])
+                recv = n.func.value
+                after_conv = isinstance(recv, ast.Call) and isinstance(recv.func, ast.Attribute) and recv.func.attr == "astimezone"
+                inside_iso = any(isinstance(a, ast.Call) and isinstance(a.func, ast.Attribute) and a.func.attr == "isoformat" for a in _anc(n))
+                if inside_iso:
+                    r5.check(True, f, n, "")  # judged by R16.1 (offset must be computed from the date)
+                    continue
+                r5.check(after_conv, f, n, f"`{norm(n)[:70]}` changes the tzinfo of a date without converting the instant first: a date that carried another offset (parsed from a manifest written in another zone) now denotes a different instant", construct=f"tzinfo replaced without conversion: {norm(n)[:60]}")
+    r5.instance(None, None, f"{n_dates} tzinfo replacement site(s) in shipped code")
+    r5.check(True, None, None, "")
+
     # ------------------------------------------------------------------ R16.2
     r2 = report.rule("R16.2", "an optional numeric attribute (size) is emitted under `is not None`, never under truthiness: 0 is a legal size", 2)
     em, mdoc, cdoc, raw = documents(p)
@@ -170,6 +195,13 @@ def _optional_int(p, e, f) -> bool:
                     if isinstance(s, ast.AnnAssign) and isinstance(s.target, ast.Name) and s.target.id == e.attr:
                         return "Optional[int]" in norm(s.annotation) or norm(s.annotation) == "int"
     return False
+
+
+def _anc(n):
+    x = parent(n)
+    while x is not None:
+        yield x
+        x = parent(x)
 
 
 def finish(report):
